@@ -5,7 +5,7 @@ from .. import engine as E
 from .. import catalogue as K
 from .. import speccheck as S
 
-THEOREMS = ["c10_unit_string", "c10_unit_match", "c10_unit_no_match", "c10_unit_non_string", "c10_tag_absent", "c10_tag_non_string", "c10_tag_names_no_variant", "c10_tag_selects", "c10_variant_first_exact", "c10_variant_names"]
+THEOREMS = ["c10_unit_string", "c10_unit_match", "c10_unit_no_match", "c10_unit_non_string", "c10_tag_absent", "c10_tag_non_string", "c10_tag_names_no_variant", "c10_tag_selects", "c10_variant_first_exact", "c10_variant_names", "c10_lowercase_ascii"]
 
 
 def run(ctx, H):
